@@ -169,9 +169,51 @@ def check_templates_survive_assembly(ctx):
     ctx.anchor("C06.A", "assembler sites that replace an operand of a command", n_sites, 2)
 
 
+def check_value_equals_filled_template(ctx, rule="C06.P"):
+    """"Filling a template and committing has the same effect as writing the value": where the SDK admits a Template (the numerator of
+    a rotation), a value written directly must reach the subroutine exactly as instantiate() would put it there - unchanged.  The
+    rotation emitter is executed (checker's interpreter) for int numerators inside and outside the encodable range and for a
+    Template: the emitted operand is the numerator itself in every case (an int-only normalisation makes flush(n) and
+    compile + instantiate(n) + commit differ; rejecting an unencodable value is the encoder's job, for both routes alike)."""
+    from .. import circuit as C
+    from ..model import EnumMember
+    from . import c19
+    repo = ctx.repo
+    b = repo.get_class("netqasm.sdk.builder", "Builder")
+    fn = b.methods.get("_build_cmds_single_qubit_rotation")
+    if fn is None:
+        raise AnalysisError("Builder._build_cmds_single_qubit_rotation not found")
+    ctx.fn("Builder._build_cmds_single_qubit_rotation")
+    gi_ = repo.get_class("netqasm.lang.ir", "GenericInstr")
+    roty = EnumMember(gi_.qualname, "ROT_Y", ctx.ev.enum_members(gi_)["ROT_Y"])
+    tcls = repo.get_class("netqasm.lang.operand", "Template")
+    bad = None
+    n = 0
+    try:
+        for d_ in (0, 1, 4, 7):
+            for n_ in (0, 1, 2, 7, 31, 32, 255, 256, 300, 1000):
+                n += 1
+                outcome, log, asked = c19.rotation_builder_run(ctx, b, fn, {"instruction": roty, "virtual_qubit_id": 2, "n": n_, "d": d_}, [])
+                rots = c19.rotation_builder_rotations(log)
+                if outcome != "ok" or rots != [(2, "ROT_Y", n_, d_)]:
+                    bad = bad or f"rotation with n={n_}, d={d_}: {outcome}, emitted {rots if rots is not None else log!r}; instantiate() would put exactly {n_} where a template stood"
+            t_ = C.Obj(tcls, {"name": "num"})
+            outcome, log, asked = c19.rotation_builder_run(ctx, b, fn, {"instruction": roty, "virtual_qubit_id": 2, "n": t_, "d": d_}, [])
+            rots = c19.rotation_builder_rotations(log)
+            if outcome != "ok" or not rots or rots[0][2] is not t_ or rots[0][3] != d_:
+                bad = bad or f"rotation with a template numerator, d={d_}: {outcome}, emitted {rots!r}"
+    except AnalysisError as ex_:
+        ctx.error(rule, f"_build_cmds_single_qubit_rotation cannot be evaluated: {ex_}")
+        return
+    ctx.check(rule, "_build_cmds_single_qubit_rotation:a-written-value-is-emitted-as-a-filled-template-would-be", bad is None,
+              f"{bad}: flushing the operations written with the value and committing the instantiated template send different subroutines (or only one of them is accepted)", b.loc(fn),
+              sample={"numerators": n})
+
+
 def run(ctx):
     check_same_pipeline(ctx)
     check_templates_survive_assembly(ctx)
+    check_value_equals_filled_template(ctx, "C06.P")
     repo = ctx.repo
     m = repo.module(CONN)
     n_pop = 0
